@@ -466,7 +466,7 @@ Definition h_suggest (k : skey) (c : N) (count : nat) : prog :=
                           match po with
                           | PDeliver sugs smd tmd =>
                             Acquire (LStudy k) (Call (CUpdateMd k smd tmd) (fun r6 => match r6 with
-                              | Err ENotFound | Err EKey => finish_op k o true []     (* the exception left the with block *)
+                              | Err ENotFound | Err EKey => Release (LStudy k) (finish_op k o true [])  (* the exception left the with block *)
                               | Err e => Throw e
                               | Ok _ => Release (LStudy k) (Acquire (LStudy k) (
                                 create_loop k c (rev sugs) (count - length out) out (fun left_rev out' =>
